@@ -59,61 +59,113 @@ def _ham_out(mol, nconv=None):
     Hc = st.symbolic((mol.nmol, n, n), "Hc")
     w = st.symbolic((len(mol.pairs), 10, 10), "w")
     charge = st.symbolic((mol.nmol, mol.molsize), "chg")
-    notconv = nconv if nconv is not None else st.T(np.array([boolean("nc0"), boolean("nc1")], dtype=object), st.bool, True)
+    notconv = nconv if nconv is not None else st.T(np.array([boolean("nc%d" % m) for m in range(mol.nmol)], dtype=object), st.bool, True)
     C = st.symbolic((mol.nmol, n, n), "C")
     return (F, e, Pm, Hc, w, charge, st.symbolic((len(mol.pairs),), "rho0xi"), st.symbolic((len(mol.pairs),), "rho0xj"), None, None, notconv, C)
 
 
+BATCH_SHAPES = {
+    "OH+HH": [[8, 1], [1, 1]],                       # equal sizes
+    "OHH+HH.": [[8, 1, 1], [1, 1, 0]],               # padded, 5 atoms / 2 molecules
+    "OHH+H..": [[8, 1, 1], [1, 0, 0]],               # padded, atom total divisible by the number of molecules (4 / 2)
+    "H..+OHH+HH.": [[1, 0, 0], [8, 1, 1], [1, 1, 0]],  # three molecules, 6 atoms / 3, shortest first
+}
+
+
+def replay_batch_totals(model):
+    """real code: Hf / Etot / Enuc / charges of each molecule in padded batches whose atom total is a multiple of the number of
+    molecules, against the same molecule computed alone."""
+    import torch
+    from seqm.seqm_functions.constants import Constants
+    from seqm.Molecule import Molecule
+    from seqm.ElectronicStructure import Electronic_Structure
+
+    torch.set_default_dtype(torch.float64)
+    params = {"method": "AM1", "scf_eps": 1e-9, "scf_converger": [1], "sp2": [False, 1e-5], "elements": [0, 1, 6, 8], "learned": [], "pair_outer_cutoff": 1e10, "eig": True}
+    mols = {"CH4": ([6, 1, 1, 1, 1], [[0.0, 0, 0], [0.63, 0.63, 0.63], [-0.63, -0.63, 0.63], [-0.63, 0.63, -0.63], [0.63, -0.63, -0.63]]),
+            "H2O": ([8, 1, 1], [[0.0, 0, 0], [0.96, 0, 0], [-0.24, 0.93, 0]]), "H2": ([1, 1], [[0.0, 0, 0], [0.74, 0, 0]]),
+            "H2CO": ([8, 6, 1, 1], [[0.0, 0, 0], [1.22, 0, 0], [1.82, 0.94, 0], [1.82, -0.94, 0]])}
+
+    def run(names):
+        n = max(len(mols[k][0]) for k in names)
+        sp = torch.tensor([mols[k][0] + [0] * (n - len(mols[k][0])) for k in names])
+        xyz = torch.tensor([mols[k][1] + [[0.0, 0, 0]] * (n - len(mols[k][1])) for k in names])
+        mol = Molecule(Constants(), params, xyz, sp)
+        Electronic_Structure(params)(mol)
+        return {"Hf": mol.Hf.tolist(), "Etot": mol.Etot.tolist(), "Enuc": mol.Enuc.tolist(), "Eiso": mol.Eiso.tolist(), "qsum": mol.q.sum(1).tolist()}
+
+    alone = {k: run([k]) for k in mols}
+    rows, bad = [], False
+    for batch in (["CH4", "H2O"], ["H2O", "H2CO", "CH4"], ["H2CO", "H2"], ["CH4", "H2O", "H2"]):
+        r = run(batch)
+        for i, k in enumerate(batch):
+            for key in ("Hf", "Etot", "Enuc", "Eiso"):
+                d = abs(r[key][i] - alone[k][key][0])
+                if d > 1e-6:
+                    bad = True
+                    rows.append({"batch": batch, "molecule": k, "quantity": key, "in_batch": r[key][i], "alone": alone[k][key][0]})
+    return {"reproduced": bad, "rows": rows[:8]}
+
+
 def task_energy_totals(ctx):
     """Etot = Eelec + sum of the molecule's pair terms, Enuc likewise, Hf = Etot - sum Eiso + sum eheat, gap = LUMO - HOMO,
-    flag / charge / density pass through unchanged."""
+    flag / charge / density pass through unchanged -- for four batch layouts (equal sizes; padded; padded with an atom total
+    divisible by the number of molecules; three molecules with the shortest first)."""
+    from contracts.C07_differentiability import _quiet
+
     fn = ctx.under_contract(BAS + ":Energy.forward", stubs=["hamiltonian", "_prepare_molecule_inputs", "pair_nuclear_energy", "elec_energy", "calc_ground_dipole", "MO matching"])
     for t in (":total_energy", ":heat_formation", ":elec_energy_isolated_atom"):
         ctx.under_contract(EN + t)
-    rec = {}
+    rep = []
+    rp = lambda mdl: (rep or rep.append(_quiet(replay_batch_totals)) or rep)[0]
+    for tag, species in BATCH_SHAPES.items():
+        rec = {}
 
-    def thunk():
-        mol = ghost_es_molecule()
-        _const_tables(mol)
-        ho = _ham_out(mol)
-        en = _make_energy(ho)
-        out = fn(en, mol, {}, all_terms=True)
-        return mol, ho, out
+        def thunk():
+            mol = ghost_es_molecule(species=species)
+            _const_tables(mol)
+            ho = _ham_out(mol)
+            en = _make_energy(ho)
+            out = fn(en, mol, {}, all_terms=True)
+            return mol, ho, out
 
-    ex = ctx.explore(thunk, stubs=energy_stubs(rec), name="Energy.forward")
-    if len(ex.paths) != 1 or ex.paths[0].raised is not None:
-        ctx.error("paths", "expected one path: %r %s" % ([p.raised for p in ex.paths], ex.paths[0].notes.get("traceback", "")[-800:] if ex.paths else ""))
-        return
-    mol, ho, out = ex.paths[0].value
-    Hf, Etot, Eelec, Enuc, Eiso_sum, EnucAB, e_gap, e, Pm, charge, notconv = out
-    pm = [int(x) for x in mol.pair_molid.a]
-    am = [int(x) for x in mol.atom_molid.a]
-    Zs = [int(x) for x in mol.Z.a]
-    par = mol.parameters
-    for m in range(mol.nmol):
-        nuc = sum(rec["EnucAB"].a[k] for k in range(len(pm)) if pm[k] == m)
-        ctx.prove_eq("Enuc[%d]=sum-of-own-pairs" % m, Enuc.a[m], nuc)
-        ctx.prove_eq("Etot[%d]=Eelec+Enuc" % m, Etot.a[m], rec["Eelec"].a[m] + nuc)
-        ctx.prove_eq("Eelec[%d]-is-the-functional-value" % m, Eelec.a[m], rec["Eelec"].a[m])
-        iso = 0
-        heat = 0
-        for a in range(len(am)):
-            if am[a] != m:
-                continue
-            z = Zs[a]
-            iso = iso + (par["U_ss"].a[a] * Sym(E.var("ussc%d" % z, E.R)) + par["U_pp"].a[a] * Sym(E.var("uppc%d" % z, E.R)) + par["g_ss"].a[a] * Sym(E.var("gssc%d" % z, E.R))
-                         + par["g_pp"].a[a] * Sym(E.var("gppc%d" % z, E.R)) + par["g_sp"].a[a] * Sym(E.var("gspc%d" % z, E.R)) + par["g_p2"].a[a] * Sym(E.var("gp2c%d" % z, E.R))
-                         + par["h_sp"].a[a] * Sym(E.var("hspc%d" % z, E.R)))
-            heat = heat + Sym(E.var("eheat%d" % z, E.R))
-        ctx.prove_eq("Eiso_sum[%d]" % m, Eiso_sum.a[m], iso)
-        ctx.prove_eq("Hf[%d]=Etot-Eiso+eheat" % m, Hf.a[m], Etot.a[m] - iso + heat)
-        nocc = int(mol.nocc.a[m])
-        ctx.prove_eq("gap[%d]=e[LUMO]-e[HOMO]" % m, e_gap.a[m], ho[1].a[m, nocc] - ho[1].a[m, nocc - 1])
-        ctx.prove("notconverged[%d]-is-the-SCF-flag" % m, notconv.a[m] == ho[10].a[m])
-    ctx.prove("density-returned-is-the-SCF-density", E.and_(*[E.eq(a.n, b.n) for a, b in zip(Pm.a.reshape(-1), ho[2].a.reshape(-1))]))
-    ctx.prove("orbital-energies-returned-are-the-SCF-ones", E.and_(*[E.eq(a.n, b.n) for a, b in zip(e.a.reshape(-1), ho[1].a.reshape(-1))]))
-    ctx.canary_eq("Etot-mixes-molecules", Etot.a[0], rec["Eelec"].a[0] + rec["EnucAB"].a[0] + rec["EnucAB"].a[1])
-    ctx.assume_note("callee contracts (proved or assumed elsewhere): hamiltonian returns (F,e,P,Hcore,w,charge,...,notconverged,C) [C03], pair_nuclear_energy [C06], elec_energy [C03/C09]; shape: batch [OH, HH]")
+        stubs = energy_stubs(rec)
+        stubs[BAS + ":calc_ground_dipole"] = lambda molecule, Pm: setattr(molecule, "dipole", st.symbolic((molecule.nmol, 3), "dip"))
+        ex = ctx.explore(thunk, stubs=stubs, name="Energy.forward[%s]" % tag)
+        if len(ex.paths) != 1 or ex.paths[0].raised is not None:
+            ctx.error(tag + ".paths", "expected one path: %r %s" % ([p.raised for p in ex.paths], ex.paths[0].notes.get("traceback", "")[-800:] if ex.paths else ""))
+            continue
+        mol, ho, out = ex.paths[0].value
+        Hf, Etot, Eelec, Enuc, Eiso_sum, EnucAB, e_gap, e, Pm, charge, notconv = out
+        pm = [int(x) for x in mol.pair_molid.a]
+        am = [int(x) for x in mol.atom_molid.a]
+        Zs = [int(x) for x in mol.Z.a]
+        par = mol.parameters
+        for m in range(mol.nmol):
+            nuc = sum((rec["EnucAB"].a[k] for k in range(len(pm)) if pm[k] == m), S(0))
+            ctx.prove_eq("%s.Enuc[%d]=sum-of-own-pairs" % (tag, m), Enuc.a[m], nuc, replay=rp, classify=lambda m_, r: "batch-scatter")
+            ctx.prove_eq("%s.Etot[%d]=Eelec+Enuc" % (tag, m), Etot.a[m], rec["Eelec"].a[m] + nuc, replay=rp, classify=lambda m_, r: "batch-scatter")
+            ctx.prove_eq("%s.Eelec[%d]-is-the-functional-value" % (tag, m), Eelec.a[m], rec["Eelec"].a[m])
+            iso = 0
+            heat = 0
+            for a in range(len(am)):
+                if am[a] != m:
+                    continue
+                z = Zs[a]
+                iso = iso + (par["U_ss"].a[a] * Sym(E.var("ussc%d" % z, E.R)) + par["U_pp"].a[a] * Sym(E.var("uppc%d" % z, E.R)) + par["g_ss"].a[a] * Sym(E.var("gssc%d" % z, E.R))
+                             + par["g_pp"].a[a] * Sym(E.var("gppc%d" % z, E.R)) + par["g_sp"].a[a] * Sym(E.var("gspc%d" % z, E.R)) + par["g_p2"].a[a] * Sym(E.var("gp2c%d" % z, E.R))
+                             + par["h_sp"].a[a] * Sym(E.var("hspc%d" % z, E.R)))
+                heat = heat + Sym(E.var("eheat%d" % z, E.R))
+            ctx.prove_eq("%s.Eiso_sum[%d]" % (tag, m), Eiso_sum.a[m], iso, replay=rp, classify=lambda m_, r: "batch-scatter")
+            ctx.prove_eq("%s.Hf[%d]=Etot-Eiso+eheat" % (tag, m), Hf.a[m], Etot.a[m] - iso + heat, replay=rp, classify=lambda m_, r: "batch-scatter")
+            nocc = int(mol.nocc.a[m])
+            ctx.prove_eq("%s.gap[%d]=e[LUMO]-e[HOMO]" % (tag, m), e_gap.a[m], ho[1].a[m, nocc] - ho[1].a[m, nocc - 1])
+            ctx.prove("%s.notconverged[%d]-is-the-SCF-flag" % (tag, m), notconv.a[m] == ho[10].a[m])
+        ctx.prove(tag + ".density-returned-is-the-SCF-density", E.and_(*[E.eq(a.n, b.n) for a, b in zip(Pm.a.reshape(-1), ho[2].a.reshape(-1))]))
+        ctx.prove(tag + ".orbital-energies-returned-are-the-SCF-ones", E.and_(*[E.eq(a.n, b.n) for a, b in zip(e.a.reshape(-1), ho[1].a.reshape(-1))]))
+        if tag == "OH+HH":
+            ctx.canary_eq("Etot-mixes-molecules", Etot.a[0], rec["Eelec"].a[0] + rec["EnucAB"].a[0] + rec["EnucAB"].a[1])
+    ctx.assume_note("callee contracts (proved or assumed elsewhere): hamiltonian returns (F,e,P,Hcore,w,charge,...,notconverged,C) [C03], pair_nuclear_energy [C06], elec_energy [C03/C09]; batch layouts: %s" % ", ".join(BATCH_SHAPES))
     ctx.undecided_clause("orbital energies are eigenvalues of the reported Fock matrix (LAPACK, A2); excited-state branch of Energy.forward")
 
 
